@@ -6,7 +6,7 @@
 //!  * order_independent         every arrival order of the same multiset ends in the same count / sum / low / high (exact) and the same
 //!                              mean / variance / std_dev
 //! Tolerance: the running mean divides at every step and the variance divides by the count, so mean / variance / std_dev are compared
-//! with |diff| <= 1e-12 * (1 + |expected|) (std_dev^2 against the variance with the same bound; Decimal's sqrt is iterative); count, sum,
+//! with |diff| <= 1e-12 * |expected| + 1e-18 - RELATIVE, so that tightly clustered data (variance ~1e-14) is held to the same standard (std_dev^2 against the variance with the same bound; Decimal's sqrt is iterative); count, sum,
 //! low, high involve no division and are compared exactly.
 use crate::{report, rng::Rng};
 use barter::statistic::summary::dataset::DataSetSummary;
@@ -19,7 +19,7 @@ const L_VAR: &str = "C17.bounded.variance_matches_two_pass";
 const L_RANGE: &str = "C17.bounded.range_low_high";
 const L_ORDER: &str = "C17.bounded.order_independent";
 
-fn near(a: Decimal, b: Decimal) -> bool { (a - b).abs() <= dec!(0.000000000001) * (Decimal::ONE + b.abs()) }
+fn near(a: Decimal, b: Decimal) -> bool { (a - b).abs() <= dec!(0.000000000001) * b.abs() + dec!(0.000000000000000001) }
 type Fail = (&'static str, String, String);
 
 /// the statistics of the whole dataset in two passes
@@ -111,6 +111,13 @@ pub fn run(seed: u64, thorough: bool) -> u64 {
         let mut r = xs.clone(); r.reverse();
         s.seq(&r, true);
     }
+    // tightly clustered data (prices / returns that differ in the 7th decimal place): the variance is ~1e-14 and must still be the dataset's
+    let m = |v: &[i64]| -> Vec<Decimal> { v.iter().map(|x| Decimal::new(*x, 7)).collect() };
+    for xs in [m(&[10000001, 10000002, 10000003, 10000004]), m(&[3, -3, 3, -3, 2]), m(&[10000001, 10000001, 10000002]), m(&[-50000003, -50000001, -50000002, -50000001]), m(&[1, 2]), m(&[999999999, 1000000000, 1000000001])] {
+        s.seq(&xs, true);
+        let mut r = xs.clone(); r.reverse();
+        s.seq(&r, true);
+    }
     // exhaustive: every sequence (hence every order of every multiset) of up to 5 (quick) / 6 (thorough) values over the 9-value set
     let values = [dec!(-2), dec!(-1), dec!(-0.5), dec!(0), dec!(0.5), dec!(1), dec!(2), dec!(3), dec!(10)];
     s.dfs(&values, if thorough { 6 } else { 5 }, &DataSetSummary::default(), &mut vec![]);
@@ -126,6 +133,7 @@ pub fn run(seed: u64, thorough: bool) -> u64 {
         for _ in 0..len {
             let mag = match kind { 0 => 1, 1 => 3, _ => rng.below(7) as u32 };
             let mut v = Decimal::new(rng.below(2001) as i64 - 1000, mag);
+            if kind == 3 && len % 2 == 0 { v = dec!(1) + Decimal::new(rng.below(41) as i64 - 20, 8); }     // clustered around 1 (differences of 1e-8)
             if kind == 1 { v = -v.abs() - dec!(0.001); }
             if kind == 2 && rng.chance(1, 8) { v *= dec!(100000); }
             // now and then exactly the running mean (when it is a short decimal), or a repeat of an earlier value
